@@ -2,7 +2,7 @@
 
 Regenerated from /repo's working tree on every run.  A *site* is a syntactic place where Rust can unwind or
 abort: `.unwrap()`, `.expect(`, indexing / slicing `x[..]`, the macros `panic! unreachable! unimplemented!
-todo! assert*!`, `-`/`*`/`/`/`%` arithmetic and `as usize` casts (index arithmetic that can under/overflow),
+todo! assert*!`, `-`/`*`/`<<`/`>>`/`/`/`%` arithmetic and `as usize` casts (index arithmetic that can under/overflow),
 calls of std methods that panic on some arguments (`remove`, `insert`, `pow`, `to_digit`, ...),
 and functions that call themselves (recursion without an evident depth bound).  `#[cfg(test)]` items and
 `#[test]` functions are skipped.  A site is keyed by  file :: function :: normalised line text  (plus an
@@ -30,7 +30,7 @@ FILE_GLOBS = [
     "data/src/data/stack_frame.rs",
     "data/src/basic/*.rs", "data/src/basic/garnish/*.rs", "data/src/basic/garnish/conversions/*.rs",
     "data/src/basic/object/*.rs",
-    "traits/src/helpers/*.rs",
+    "traits/src/helpers/*.rs", "traits/src/data.rs",
 ]
 MACROS = ["panic", "unreachable", "unimplemented", "todo", "assert", "assert_eq", "assert_ne", "debug_assert",
           "debug_assert_eq", "debug_assert_ne"]
@@ -189,7 +189,7 @@ def functions(src):
 
 
 INDEX_RE = re.compile(r"[\w\)\]\?]\[")
-ARITH_RE = re.compile(r" (-|\*|-=|\*=) ")
+ARITH_RE = re.compile(r" (-|\*|-=|\*=|<<|>>|<<=|>>=) ")
 DIV_RE = re.compile(r" (/|%|/=|%=) ")
 CAST_RE = re.compile(r"\bas usize\b")
 MACRO_RE = re.compile(r"\b(%s)!\s*[\(\[\{]" % "|".join(MACROS))
